@@ -736,6 +736,12 @@ class Engine:
             return V(Real, [xr / yr])
         if isinstance(op, ast.Pow):
             return self.power(st, a, b, x, y, real, node)
+        if isinstance(op, (ast.BitAnd, ast.BitOr, ast.LShift)) and not real:
+            # bit operations on integers (bit masks): uninterpreted binary functions - nothing about bits is assumed
+            nm = {"BitAnd": "bitand", "BitOr": "bitor", "LShift": "shl"}[type(op).__name__]
+            if nm not in self.specfns:
+                self.specfns[nm] = (z3.Function(nm, Ty.IntS, Ty.IntS, Ty.IntS), [], Int, None)
+            return mk(self.specfns[nm][0](x, y))
         raise Unsupported(f"binary op {type(op).__name__}")
 
     def power(self, st, a, b, x, y, real, node):
